@@ -53,6 +53,22 @@ func genC13(r *simrt.Rand, tier string) (Cfg, *Program) {
 		pf.CtrlOps = [2]int{1, 4}
 		pf.CtrlGapPct = 30
 	}
+	switch r.Intn(10) {
+	case 0, 1:
+		// the first consumer has a context and is restarted (or stopped and restarted) while
+		// items keep being announced: the new run must pull them like the first one did
+		pf.UseCtxPct = 70
+		pf.Ctrl = []wop{{opRestart, 4}, {opStop, 1}, {opPause, 1}, {opResume, 2}, {opSettle, 2}}
+		pf.CtrlOps = [2]int{1, 4}
+		pf.CtrlGapPct = 40
+	case 2:
+		// its context is cancelled while it is dispatching: whatever it has taken out of the
+		// shared backend by then is executed, the rest stays there for the others
+		pf.UseCtxPct = 100
+		pf.Ctrl = []wop{{opCancelCtx, 1}}
+		pf.CtrlOps = [2]int{1, 1}
+		pf.CtrlGapPct = 70
+	}
 	c, p := generate(r, pf)
 	c.Consumers = 1 + r.Intn(4)
 	for i := range c.Queues {
@@ -157,7 +173,22 @@ func judgeC13(j *judgeCtx) {
 			j.add("C13.a", s.Entries[1], "item %d was executed %d times (consumers %v)", s.N, len(s.Entries), s.Worker)
 		}
 	}
-	// drained at rest: an item is an obligation when some consumer either was fully
+	// which consumers are running at rest (the first one may have been stopped, or its
+	// context cancelled, by the program)
+	running := map[int]bool{}
+	for _, c := range j.r.calls {
+		if c.K == opSample && c.Arg == 50 {
+			running[c.W] = c.Str == "Running"
+		}
+	}
+	// taken out of the shared backend but never handed to the worker function: nobody else
+	// can see the item any more
+	for _, u := range ad.unacked {
+		if !u.Fn && u.E.Sub >= 0 {
+			j.add("C13.d", j.final, "item %d was taken from the shared adapter (delivery %s) but at rest it has never been handed to a worker function: it is lost to the other consumers", u.E.Sub, u.ID)
+		}
+	}
+	// drained at rest: an item is an obligation when some running consumer either was fully
 	// subscribed before the item's enqueue began, or began binding after it was stored
 	for _, e := range ad.pending {
 		var enqInv, enqDone uint64
@@ -170,14 +201,14 @@ func judgeC13(j *judgeCtx) {
 			enqInv = wd.subs[e.Sub].AddInv
 		}
 		oblig := false
-		for _, at := range ad.subAt {
-			if at < enqInv {
+		for i, at := range ad.subAt {
+			if at < enqInv && i < len(ad.subOwner) && ad.subOwner[i] != nil && running[ad.subOwner[i].cidx] {
 				oblig = true
 			}
 		}
 		all := append([]*World{wd}, wd.consumers...)
 		for _, c := range all {
-			if len(c.qs) > 0 && c.qs[0].boundAt > enqDone && enqDone != 0 {
+			if len(c.qs) > 0 && c.qs[0].boundAt > enqDone && enqDone != 0 && running[c.cidx] {
 				oblig = true
 			}
 		}
